@@ -2,7 +2,7 @@
    ExtrOcamlBasic only; Z / positive / nat / N stay inductive.  No Extract
    Constant of our own. *)
 From Coq Require Import Extraction ExtrOcamlBasic.
-From Verif Require Import Base.GoPrim Model.IoUtil Model.Containers Model.SubnetSet Model.Cache Model.UrlRedact Model.Addr Std.Netip Model.Ip Std.Net Model.Reversed Model.Hosts Std.Bufio Model.Storage Model.AddrConv Std.Utf8 Model.StringUtil Std.Time Std.Json Model.Codecs Model.Sync Model.Service Model.JsonHybrid.
+From Verif Require Import Base.GoPrim Model.IoUtil Model.Containers Model.SubnetSet Model.Cache Model.UrlRedact Model.Addr Std.Netip Model.Ip Std.Net Model.Reversed Model.Hosts Std.Bufio Model.Storage Model.AddrConv Std.Utf8 Model.StringUtil Std.Time Std.Json Model.Codecs Model.Sync Model.Service Model.JsonHybrid Model.Pool Model.HttpMw.
 
 Extraction Language OCaml.
 Extraction "model.ml"
@@ -24,4 +24,5 @@ Extraction "model.ml"
   url_parse_nonempty url_marshal_text url_unmarshal_text url_marshal_json url_unmarshal_json jquote junquote
   o_init o_run o_step begins ends sem_new sem_apply acquire_enabled release_enabled
   handle rw_run
-  hybrid_line enabled derive_all path_attrs contents nil_slice.
+  hybrid_line enabled derive_all path_attrs contents nil_slice
+  wrap finished_code crw_run p_run p_init logmw_prog.
